@@ -1,2 +1,223 @@
-(* Props/C15.v -- placeholder while the proofs are being written. *)
-From XMT Require Import Base.Prelude Model.Table.
+(* Props/C15.v -- property theorems for C15 (packets are only ever processed in the session of the
+   device they name).  Only statements; every proof is `exact <lemma>`; Print Assumptions under each.
+
+   Vocabulary (Model/Table.v, Proofs/Table.v):
+   - hash is device.ID.Hash; a table maps a 32-bit hash to a session; wf t: every entry under key k
+     holds a session whose ID hashes to k, is not empty, and whose queue only holds packets naming
+     that ID (the invariant of every table reachable from the empty one);
+   - step a t o = (t', e, r): one operation (Listener.talk on a single packet / a same-device batch /
+     a multi-device batch with a tag list, Listener.talkSub, a send through Server.Session, a
+     lookup, Server.Remove, Server.Sessions) with its effects e and its answer r; run is a history;
+   - effects: ETouch sid pdev (address / last-seen of session sid updated on behalf of a packet
+     naming pdev), ERekey sid pdev k (key material overwritten), EHandle sid pdev job (handler /
+     Receive callback fired), EFetch sid tag (a tag drained sid's queue), ENew, EDrop;
+   - op_names o: the devices the incoming packet names (top level and sub-packets), op_tags o: its tags.
+   No theorem below has a no-collision hypothesis except C15_hello_registers, whose bare form
+   is refuted by a real pair of colliding IDs (C15_collision_refuted). *)
+From stdpp Require Import gmap.
+From XMT Require Import Base.Prelude Model.Table Proofs.Table.
+
+(* ---- the invariant, over all histories ------------------------------------------------ *)
+Theorem C15_history_invariant :
+  forall ops a t t' l, wf t -> run a t ops = (t', l) -> wf t'.
+Proof. exact history_wf. Qed.
+Print Assumptions C15_history_invariant.
+
+(* ---- dispatch: whatever is done, is done in the session of the device the packet names ---- *)
+(* every step of every history, every set of registered IDs (colliding or not), every batch
+   composition and tag list: each effect satisfies eff_ok, i.e.
+     ETouch/ERekey/EHandle sid pdev: sid = pdev and pdev is named by the incoming packet;
+     EFetch sid tag: hash sid = tag and the tag is listed; ENew sid: sid is named. *)
+Theorem C15_dispatch_own_session :
+  forall ops a t t' l, wf t -> run a t ops = (t', l) ->
+  Forall2 (fun o er => Forall (eff_ok (op_names o) (op_tags o)) er.1) ops l.
+Proof. exact dispatch_own_session. Qed.
+Print Assumptions C15_dispatch_own_session.
+
+Theorem C15_handled_in_own_session :
+  forall a t o t' e r sid pdev job, wf t -> step a t o = (t', e, r) ->
+  In (EHandle sid pdev job) e -> sid = pdev /\ In pdev (op_names o).
+Proof. exact handled_in_own_session. Qed.
+Print Assumptions C15_handled_in_own_session.
+
+(* the same for every kind of effect (address / last-seen update, key update, tag fetch, new session) *)
+Theorem C15_step_effects_own :
+  forall a t o t' e r x, wf t -> step a t o = (t', e, r) -> In x e -> eff_ok (op_names o) (op_tags o) x.
+Proof. exact step_effect. Qed.
+Print Assumptions C15_step_effects_own.
+
+(* ---- an unknown device: re-registration request, never delivery ---------------------------- *)
+(* unknown = no session with this ID is registered, whatever sits under its hash *)
+Theorem C15_unknown_gets_register :
+  forall a t p, id_empty (p_dev p) = false -> server_session t (p_dev p) = None -> (p_pid p =? SvHello) = false ->
+  talk a t p = (t, [], ARegister (p_dev p)).
+Proof. exact unknown_gets_register_talk. Qed.
+Print Assumptions C15_unknown_gets_register.
+
+Theorem C15_unknown_gets_register_sub :
+  forall a t n o, id_empty (l_dev n) = false -> server_session t (l_dev n) = None -> (l_pid n =? SvHello) = false ->
+  talk_sub a t n o = (t, [], ASub None 0 (Some (l_dev n)) []).
+Proof. exact unknown_gets_register_talk_sub. Qed.
+Print Assumptions C15_unknown_gets_register_sub.
+
+(* inside a multi-device batch the sub-packet of an unknown device contributes exactly the
+   request naming it; the rest of the batch is processed from the unchanged table *)
+Theorem C15_unknown_gets_register_in_batch :
+  forall a hk t v r acc e h,
+  id_empty (l_dev v) = false -> server_session t (l_dev v) = None -> (l_pid v =? SvHello) = false ->
+  t !! hk = Some h -> s_id h <> l_dev v ->
+  process_multiple true a hk t (v :: r) acc e =
+  process_multiple true a hk t r (acc ++ [(l_dev v, SvRegister, 0)]) e.
+Proof. exact unknown_gets_register_in_batch. Qed.
+Print Assumptions C15_unknown_gets_register_in_batch.
+
+(* the answers of every step of every history: a re-registration request names the packet's
+   device, outbound packets name a device the packet named or tagged, lookups and sends go to the
+   device asked for (ans_ok) *)
+Theorem C15_history_answers :
+  forall ops a t t' l, wf t -> run a t ops = (t', l) -> Forall2 (fun o er => ans_ok o er.2) ops l.
+Proof. exact history_answers. Qed.
+Print Assumptions C15_history_answers.
+
+(* ---- lookups ------------------------------------------------------------------------------ *)
+Theorem C15_lookup_own_or_none : forall t d s, server_session t d = Some s -> s_id s = d.
+Proof. exact lookup_own_or_none. Qed.
+Print Assumptions C15_lookup_own_or_none.
+
+Theorem C15_lookup_finds_registered :
+  forall t k s, wf t -> t !! k = Some s -> server_session t (s_id s) = Some s.
+Proof. exact server_session_complete. Qed.
+Print Assumptions C15_lookup_finds_registered.
+
+(* ---- outbound packets ------------------------------------------------------------------------ *)
+Theorem C15_outbound_own_conn :
+  forall a t p t' e k l, wf t -> talk a t p = (t', e, AReply k l) -> Forall (out_ok (names p) (p_tags p)) l.
+Proof. exact outbound_own_conn. Qed.
+Print Assumptions C15_outbound_own_conn.
+
+Theorem C15_outbound_own_conn_sub :
+  forall a t n o t' e k q reg l, wf t -> talk_sub a t n o = (t', e, ASub k q reg l) ->
+  Forall (fun x => o_dev x = l_dev n) l /\ (forall d, reg = Some d -> d = l_dev n) /\ (forall d, k = Some d -> d = l_dev n).
+Proof. exact outbound_own_conn_sub. Qed.
+Print Assumptions C15_outbound_own_conn_sub.
+
+(* ---- removal ----------------------------------------------------------------------------------- *)
+Theorem C15_remove_forgets : forall t d, server_session (server_remove t d).1 d = None.
+Proof. exact remove_forgets. Qed.
+Print Assumptions C15_remove_forgets.
+
+Theorem C15_remove_keeps_other_keys : forall t d k, k <> hash d -> (server_remove t d).1 !! k = t !! k.
+Proof. exact remove_keeps_other_keys. Qed.
+Print Assumptions C15_remove_keeps_other_keys.
+
+(* ---- registration: the one place that still needs "no collision" ---------------------------- *)
+(* full statement (false): forall t d, wf t -> d not registered -> d's well-formed hello registers d.
+   Honest variant: under injectivity of the hash on the registered IDs plus d. *)
+Theorem C15_hello_registers :
+  forall a t d j tags t' e r,
+  wf t -> id_empty d = false -> hash_injective_on (fun x => registered t x \/ x = d) -> ~ registered t d ->
+  talk a t (Single (Leaf d SvHello j BHello) tags) = (t', e, r) ->
+  (exists s, server_session t' d = Some s) /\ In (ENew d) e.
+Proof. exact hello_registers. Qed.
+Print Assumptions C15_hello_registers.
+
+(* the witness is a real pair of IDs with equal device.ID.Hash (checked here by vm_compute and on
+   every run against the real function) *)
+Theorem C15_real_collision : hash idA = 827974963 /\ hash idB = 827974963 /\ idA <> idB.
+Proof. exact real_collision. Qed.
+Print Assumptions C15_real_collision.
+
+Theorem C15_collision_refuted :
+  ~ (forall a t d j tags t' e r, wf t -> id_empty d = false -> ~ registered t d ->
+       talk a t (Single (Leaf d SvHello j BHello) tags) = (t', e, r) ->
+       exists s, server_session t' d = Some s).
+Proof. exact collision_refuted. Qed.
+Print Assumptions C15_collision_refuted.
+
+(* in general: while the slot of d's hash is held by another device, every packet naming d is
+   answered by a re-registration request (an empty hello by the malformed-packet error) and
+   changes nothing: d can never register, and nothing of the other device is touched *)
+Theorem C15_second_device_cannot_register :
+  forall a t d s p, t !! hash d = Some s -> s_id s <> d -> id_empty d = false -> p_dev p = d ->
+  talk a t p = (t, [], if p_empty p && (p_pid p =? SvHello) then AErr EMalformed else ARegister d).
+Proof. exact collider_cannot_register. Qed.
+Print Assumptions C15_second_device_cannot_register.
+
+(* ---- the proxy ------------------------------------------------------------------------------------ *)
+Theorem C15_proxy_accept_own :
+  forall x n x', pwf (x_clients x) -> proxy_accept x n = (x', true) ->
+  exists c, x_clients x !! hash (l_dev n) = Some c /\ c_id c = l_dev n.
+Proof. exact proxy_accept_own. Qed.
+Print Assumptions C15_proxy_accept_own.
+
+Theorem C15_proxy_accept_refuses_other :
+  forall x n, (forall c, x_clients x !! hash (l_dev n) = Some c -> c_id c <> l_dev n) -> proxy_accept x n = (x, false).
+Proof. exact proxy_accept_refuses. Qed.
+Print Assumptions C15_proxy_accept_refuses_other.
+
+Theorem C15_proxy_unknown_gets_register :
+  forall x n tags, id_empty (l_dev n) = false ->
+  (forall c, x_clients x !! hash (l_dev n) = Some c -> c_id c <> l_dev n) -> (l_pid n =? SvHello) = false ->
+  proxy_talk x n tags = (x, ARegister (l_dev n)) /\
+  forall o, proxy_talk_sub x n o = (x, ASub None 0 (Some (l_dev n)) []).
+Proof. exact proxy_unknown_gets_register. Qed.
+Print Assumptions C15_proxy_unknown_gets_register.
+
+(* all proxy histories: the client table stays well formed; every answer hands out only packets
+   naming the packet's device (or a tagged one), forwards upstream only the packet itself, and
+   accept queues only on the entry of the named device (pans_ok) *)
+Theorem C15_proxy_history :
+  forall ops x x' l, pwf (x_clients x) -> prun x ops = (x', l) ->
+  pwf (x_clients x') /\ Forall2 (fun o s => pans_ok o s.1.1 s.1.2 s.2) ops l.
+Proof. exact proxy_history. Qed.
+Print Assumptions C15_proxy_history.
+
+(* ---- the code as it was before the fix: commits (chk = false), with the real pair ------------- *)
+(* Server.Session(B) returned A's session; a packet naming B updated the address / last-seen time
+   of A's session and overwrote its key material before receive() refused it (talk and talkSub);
+   Proxy.accept queued B's packet for A and Proxy.talk handed A's queued packets to B's connection.
+   In each pair the second line is the code as it is now. *)
+Theorem C15_old_code_refuted :
+  (option_map s_id (server_session_g false tA idB) = Some idA /\ server_session tA idB = None) /\
+  ((let '(_, e, r) := talk_g false 2 tA (Single (Leaf idB 192 11 (BKey 77)) []) in (e, r))
+     = ([ETouch idA idB; ERekey idA idB 77], AErr EMismatch) /\
+   (let '(_, e, r) := talk 2 tA (Single (Leaf idB 192 11 (BKey 77)) []) in (e, r)) = ([], ARegister idB)) /\
+  ((let '(_, e, r) := talk_sub_g false 2 tA (Leaf idB 192 11 (BKey 9)) false in (e, r))
+     = ([ETouch idA idB; ERekey idA idB 9], AErr EMismatch) /\
+   (let '(_, e, r) := talk_sub 2 tA (Leaf idB 192 11 (BKey 9)) false in (e, r))
+     = ([], ASub None 0 (Some idB) [])) /\
+  ((let '(x', b) := proxy_accept_g false xA (Leaf idB 208 11 BData) in (psnapshot x', b))
+     = ([(827974963, idA, [(idA, SvComplete, 10); (idB, 208, 11)])], true) /\
+   (proxy_talk_g false xA (Leaf idB 192 11 BData) []).2 = AReply true [(idA, SvComplete, 10)] /\
+   (let '(x', b) := proxy_accept xA (Leaf idB 208 11 BData) in (psnapshot x', b))
+     = ([(827974963, idA, [(idA, SvComplete, 10)])], false) /\
+   (proxy_talk xA (Leaf idB 192 11 BData) []).2 = ARegister idB).
+Proof. exact old_code_refuted. Qed.
+Print Assumptions C15_old_code_refuted.
+
+(* without collisions the hash-only lookup and the repaired one agree *)
+Theorem C15_lookup_hash_only_eq :
+  forall t d, wf t -> hash_injective_on (fun x => registered t x \/ x = d) -> lookup false t d = lookup true t d.
+Proof. exact lookup_hash_only_eq. Qed.
+Print Assumptions C15_lookup_hash_only_eq.
+
+(* ---- non-vacuity: a reachable table with two sessions, a colliding third device, a multi-device
+   batch, a tag fetch, a send, lookups and a removal; the hypotheses above (wf, reachable) hold of it *)
+Example C15_nonvacuous :
+  reachable (run 1 ∅ demo_ops).1 /\
+  (run 1 ∅ demo_ops).2 =
+  [ ([ETouch idA idA; ENew idA], AReply false [(idA, 4, 10)]);
+    ([ETouch idC idC; ENew idC], AReply false [(idC, 4, 11)]);
+    ([], AFound (Some idA));
+    ([], AFound None);
+    ([ETouch idC idC; ETouch idA idA; EHandle idA idA 15; EHandle idC idC 17],
+     AReply true [(idA, 208, 12); (idB, 3, 0); (idC, 0, 0)]);
+    ([], ARegister idB);
+    ([], ARegister idB);
+    ([], AFound None);
+    ([], AFound (Some idA));
+    ([ETouch idC idC; EFetch idA 827974963], AReply true [(idC, 0, 0)]);
+    ([EDrop idC], ABool true);
+    ([], ARegister idC) ].
+Proof. exact (conj demo_reachable demo_run). Qed.
+Print Assumptions C15_nonvacuous.
